@@ -33,7 +33,51 @@ fn px_bytes(v: &[u32]) -> Vec<u8> {
 /// Builds the sprite: layer 0 carries the backdrop (Normal, 255); layer 1+k
 /// has blend mode modes[k] and layer opacity `lo`; frame k shows the backdrop
 /// (linked to frame 0) and the source cel (cel opacity `co`) on layer 1+k.
+/// [I] data of an indexed plane: a 256-entry palette with every kind of alpha, backdrop indices (never the transparent
+/// index 0) and source indices (any, incl. the transparent index: the source layers carry the BACKGROUND flag, where
+/// every index shows its palette colour)
+pub fn indexed_plane_data(seed: u64, p: u64) -> (Vec<[u8; 4]>, Vec<u8>, Vec<u8>) {
+    let mut rng = Rng::derive(seed, "I", p);
+    let pal: Vec<[u8; 4]> = (0..256).map(|i| [rng.u8(), rng.u8(), rng.u8(), match i % 5 { 0 => 255, 1 => 0, 2 => 128, 3 => rng.u8(), _ => 255 }]).collect();
+    let n = 32 * 32;
+    let back: Vec<u8> = (0..n).map(|_| rng.range(1, 255) as u8).collect();
+    let src: Vec<u8> = (0..n).map(|_| rng.u8()).collect();
+    (pal, back, src)
+}
+
+pub fn plane_i(seed: u64, p: u64) -> Plane {
+    let (pal, bi, si) = indexed_plane_data(seed, p);
+    let back = bi.iter().map(|i| pack(pal[*i as usize])).collect();
+    let src = si.iter().map(|i| pack(pal[*i as usize])).collect();
+    let mut rng = Rng::derive(seed, "I-op", p);
+    let (lo, co) = if p % 2 == 0 { (255, 255) } else { (rng.opacity(), rng.opacity()) };
+    Plane { family: "I-indexed-background-source", label: format!("I(seed={},p={})", seed, p), back, src, lo, co, w: 32, h: 32 }
+}
+
 pub fn plane_sprite(plane: &Plane, modes: &[u16]) -> Sprite {
+    if plane.family == "I-indexed-background-source" {
+        // indexed sprite: layer 0 (plain) carries the backdrop; the source layers sit ABOVE it and carry the BACKGROUND flag
+        let nums: Vec<u64> = plane.label.split(|c: char| !c.is_ascii_digit()).filter(|s| !s.is_empty()).map(|s| s.parse().unwrap()).collect();
+        let (pal, bi, si) = indexed_plane_data(nums[0], nums[1]);
+        let mut sp = Sprite::blank(plane.w, plane.h, Fmt::Indexed, modes.len());
+        sp.transparent_index = 0;
+        sp.palette = Some(pal.iter().enumerate().map(|(i, c)| (i as u32, PalEntryM { rgba: *c, name: None })).collect());
+        sp.layers.push(LayerM::image("backdrop"));
+        for (k, m) in modes.iter().enumerate() {
+            let mut l = LayerM::image(MODE_NAMES[*m as usize]);
+            l.blend = *m;
+            l.opacity = plane.lo;
+            l.flags |= LF_BACKGROUND;
+            sp.layers.push(l);
+            if k == 0 {
+                sp.cels.insert((0, 0), CelM { x: 0, y: 0, opacity: 255, content: CelContentM::Image { w: plane.w, h: plane.h, pixels: bi.clone() }, ud: None });
+            } else {
+                sp.cels.insert((k as u16, 0), CelM { x: 0, y: 0, opacity: 255, content: CelContentM::Link(0), ud: None });
+            }
+            sp.cels.insert((k as u16, 1 + k as u16), CelM { x: 0, y: 0, opacity: plane.co, content: CelContentM::Image { w: plane.w, h: plane.h, pixels: si.clone() }, ud: None });
+        }
+        return sp;
+    }
     let mut sp = Sprite::blank(plane.w, plane.h, Fmt::Rgba, modes.len());
     let mut l0 = LayerM::image("backdrop");
     l0.blend = 0;
@@ -41,6 +85,23 @@ pub fn plane_sprite(plane: &Plane, modes: &[u16]) -> Sprite {
     sp.layers.push(l0);
     let backb = px_bytes(&plane.back);
     let srcb = px_bytes(&plane.src);
+    // family U: the BACKDROP is a tilemap cel on the lowest layer (8x8 tiles cut from the backdrop plane)
+    let backdrop_tilemap = plane.family == "U-backdrop-tilemap";
+    if backdrop_tilemap {
+        let (tw, th) = (8u16, 8u16);
+        let (mw, mh) = (plane.w / tw, plane.h / th);
+        let mut pixels = vec![0u8; tw as usize * th as usize * 4];
+        for ty in 0..mh as usize {
+            for tx in 0..mw as usize {
+                for y in 0..th as usize {
+                    let row = (ty * th as usize + y) * plane.w as usize + tx * tw as usize;
+                    pixels.extend_from_slice(&backb[row * 4..(row + tw as usize) * 4]);
+                }
+            }
+        }
+        sp.tilesets.push(TilesetM { id: 7, flags: TS_EMBED | TS_ZERO_EMPTY, count: mw as u32 * mh as u32 + 1, tw, th, base_index: 1, name: "back".into(), ext: None, pixels });
+        sp.layers[0].kind = LayerKind::Tilemap(7);
+    }
     // family T: the source reaches the blender through a tilemap cel (8x8 tiles cut from the source plane)
     let via_tilemap = plane.family == "T-through-tilemap";
     let (tw, th) = (8u16, 8u16);
@@ -66,7 +127,8 @@ pub fn plane_sprite(plane: &Plane, modes: &[u16]) -> Sprite {
         }
         sp.layers.push(l);
         if k == 0 {
-            sp.cels.insert((0, 0), CelM { x: 0, y: 0, opacity: 255, content: CelContentM::Image { w: plane.w, h: plane.h, pixels: backb.clone() }, ud: None });
+            let content = if backdrop_tilemap { CelContentM::Tilemap { w: plane.w / 8, h: plane.h / 8, tiles: (1..=(plane.w as u32 / 8) * (plane.h as u32 / 8)).collect(), masks: [0x1fff_ffff, 0x2000_0000, 0x4000_0000, 0x8000_0000] } } else { CelContentM::Image { w: plane.w, h: plane.h, pixels: backb.clone() } };
+            sp.cels.insert((0, 0), CelM { x: 0, y: 0, opacity: 255, content, ud: None });
         } else {
             sp.cels.insert((k as u16, 0), CelM { x: 0, y: 0, opacity: 255, content: CelContentM::Link(0), ud: None });
         }
@@ -420,6 +482,39 @@ pub fn plane_z(seed: u64, p: u64) -> Plane {
     Plane { family: "Z-zero-opacity-alpha0", label: format!("Z(p={},variant={})", p, variant), back, src, lo, co, w: 128, h: 128 }
 }
 
+/// [U] the backdrop is a tilemap cel on the lowest layer; the source is an image cel that lies inside the canvas,
+/// mostly at full opacity (nothing but the blender may decide what an image cel over tiles looks like)
+pub fn plane_u(seed: u64, p: u64) -> Plane {
+    let mut rng = Rng::derive(seed, "U", p);
+    let (w, h) = (32u16, 32u16);
+    let n = w as usize * h as usize;
+    let mut back = Vec::with_capacity(n);
+    let mut src = Vec::with_capacity(n);
+    for _ in 0..n {
+        back.push(rng.u32() | if rng.chance(2, 3) { 0xff00_0000 } else { 0 });
+        src.push(rng.u32() | if rng.chance(1, 3) { 0xff00_0000 } else { 0 });
+    }
+    let (lo, co) = if p % 3 == 0 { (rng.opacity(), rng.opacity()) } else { (255, 255) };
+    Plane { family: "U-backdrop-tilemap", label: format!("U(p={})", p), back, src, lo, co, w, h }
+}
+
+/// [O] every source pixel opaque and the source cel covering the whole canvas: the only thing between "hides what is
+/// below" and "blends with what is below" is the opacity - on the layer, on the cel, or on both
+pub fn plane_o(seed: u64, p: u64) -> Plane {
+    let mut rng = Rng::derive(seed, "O", p);
+    let (w, h) = (16u16, 16u16);
+    let n = w as usize * h as usize;
+    let back: Vec<u32> = (0..n).map(|_| rng.u32() | if rng.chance(3, 4) { 0xff00_0000 } else { 0 }).collect();
+    let src: Vec<u32> = (0..n).map(|_| rng.u32() | 0xff00_0000).collect();
+    let (lo, co) = match p % 4 {
+        0 => (255, rng.opacity()),
+        1 => (rng.opacity(), 255),
+        2 => (255, 255),
+        _ => (255, *rng.pick(&[254u8, 128, 1, 0])),
+    };
+    Plane { family: "O-opaque-source", label: format!("O(p={})", p), back, src, lo, co, w, h }
+}
+
 /// [T] the source pixels reach the blender through a tilemap cel: random pairs, all opacity pairs incl. 0 and 255
 pub fn plane_t(seed: u64, p: u64) -> Plane {
     let mut rng = Rng::derive(seed, "T", p);
@@ -501,7 +596,57 @@ pub fn stack_f(seed: u64, p: u64) -> Stack {
     Stack { label: format!("F(p={},layers={})", p, k + 1), w, h, layers }
 }
 
-pub fn check_stack(stack: &Stack) -> Vec<Violation> {
+/// C17 on stacks, without any reference implementation: (1) the stack rendered with every mode replaced by Normal
+/// has the same alpha everywhere; (2) a copy of any layer inserted just below it with a zero opacity product (zero
+/// cel opacity, or zero layer opacity) changes nothing - in particular not what the layers above it produce.
+pub fn check_stack_laws(stack: &Stack) -> Vec<Violation> {
+    let base = match render_stack(stack) {
+        Ok((o, _)) => o,
+        Err(v) => return vec![v],
+    };
+    let n = base.len();
+    let mut out = Vec::new();
+    let normal = Stack { label: format!("{}:all-normal", stack.label), w: stack.w, h: stack.h, layers: stack.layers.iter().map(|(_, lo, co, px)| (0u16, *lo, *co, px.clone())).collect() };
+    match render_stack(&normal) {
+        Ok((o, bytes)) => {
+            if let Some(i) = (0..n).find(|i| o[*i] >> 24 != base[*i] >> 24) {
+                out.push(Violation::new("law1|stack", format!("pixel {} of stack {}: alpha {} but the same stack in Normal mode has alpha {}", i, stack.label, base[i] >> 24, o[i] >> 24)).with_input(&bytes));
+            }
+        }
+        Err(v) => out.push(v),
+    }
+    for j in 1..stack.layers.len() {
+        let mut layers = stack.layers.clone();
+        let (m, lo, co, px) = stack.layers[j].clone();
+        let ghost = if j % 2 == 0 { (m, lo, 0u8, px) } else { (m, 0u8, co, px) };
+        layers.insert(j, ghost);
+        let plus = Stack { label: format!("{}:ghost-below-{}", stack.label, j), w: stack.w, h: stack.h, layers };
+        match render_stack(&plus) {
+            Ok((o, bytes)) => {
+                if let Some(i) = (0..n).find(|i| !loose_eq(o[*i], base[*i])) {
+                    out.push(Violation::new(format!("law2|stack|{}", MODE_NAMES[m as usize]), format!("pixel {} of stack {}: {:?} with a zero-opacity copy of layer {} inserted below it, {:?} without", i, stack.label, unpack(o[i]), j, unpack(base[i]))).with_input(&bytes));
+                    break;
+                }
+            }
+            Err(v) => {
+                out.push(v);
+                break;
+            }
+        }
+    }
+    out
+}
+
+/// Renders a stack through Frame::image; returns the observed pixels and the file.
+pub fn render_stack(stack: &Stack) -> Result<(Vec<u32>, Vec<u8>), Violation> {
+    let (bytes, ase) = stack_file(stack)?;
+    match guarded(|| ase.frame(0).image()) {
+        Ok(img) => Ok((img.as_raw().chunks_exact(4).map(|c| pack([c[0], c[1], c[2], c[3]])).collect(), bytes)),
+        Err(p) => Err(Violation::new(format!("render-panic|stack|{}", p.signature()), format!("rendering stack {} panicked: {}", stack.label, p.message))),
+    }
+}
+
+fn stack_file(stack: &Stack) -> Result<(Vec<u8>, asefile::AsepriteFile), Violation> {
     let mut sp = Sprite::blank(stack.w, stack.h, Fmt::Rgba, 1);
     for (j, (mode, lo, co, px)) in stack.layers.iter().enumerate() {
         let mut l = LayerM::image(MODE_NAMES[*mode as usize]);
@@ -522,13 +667,16 @@ pub fn check_stack(stack: &Stack) -> Vec<Violation> {
     v.default_storage = Storage::Raw;
     let mut rng = Rng::new(0);
     let (bytes, _) = encode(&compile(&sp, &mut rng, &v));
-    let ase = match load(&bytes) {
-        Ok(a) => a,
-        Err(e) => return vec![Violation::new(format!("load-failed|blend-stack|{}", err_sig(&e)), format!("stack sprite failed to load: {}", e))],
-    };
-    let img = match guarded(|| ase.frame(0).image()) {
-        Ok(i) => i,
-        Err(p) => return vec![Violation::new(format!("render-panic|stack|{}", p.signature()), format!("rendering stack {} panicked: {}", stack.label, p.message))],
+    match load(&bytes) {
+        Ok(a) => Ok((bytes, a)),
+        Err(e) => Err(Violation::new(format!("load-failed|blend-stack|{}", err_sig(&e)), format!("stack sprite failed to load: {}", e))),
+    }
+}
+
+pub fn check_stack(stack: &Stack) -> Vec<Violation> {
+    let (obs, bytes) = match render_stack(stack) {
+        Ok(x) => x,
+        Err(v) => return vec![v],
     };
     let n = stack.w as usize * stack.h as usize;
     let mut canvas = vec![0u32; n];
@@ -537,7 +685,6 @@ pub fn check_stack(stack: &Stack) -> Vec<Violation> {
         blendref::blend_many(*mode as u32, &canvas, px, blendref::mul_un8(*lo, *co), &mut out);
         std::mem::swap(&mut canvas, &mut out);
     }
-    let obs: Vec<u32> = img.as_raw().chunks_exact(4).map(|c| pack([c[0], c[1], c[2], c[3]])).collect();
     if let Some(i) = (0..n).find(|i| !loose_eq(obs[*i], canvas[*i])) {
         let desc: Vec<String> = stack.layers.iter().map(|(m, lo, co, px)| format!("{}(lo={},co={},px={:?})", MODE_NAMES[*m as usize], lo, co, unpack(px[i]))).collect();
         return vec![Violation::new("blend-mismatch|stack|F-stacks", format!("pixel {} of a {}-layer stack: asefile {:?}, Aseprite {:?}; layers bottom-up: {}", i, stack.layers.len(), unpack(obs[i]), unpack(canvas[i]), desc.join(" ")))
@@ -563,6 +710,9 @@ pub enum Job {
     Z { p: u64 },
     G { p: u64 },
     T { p: u64 },
+    U { p: u64 },
+    O { p: u64 },
+    I { p: u64 },
 }
 
 pub fn alpha_lattice_24() -> Vec<u8> {
@@ -625,6 +775,15 @@ pub fn schedule(tier: Tier, seed: u64) -> Vec<Job> {
     for p in 0..tier.pick(40, 800) {
         jobs.push(Job::T { p });
     }
+    for p in 0..tier.pick(24, 400) {
+        jobs.push(Job::U { p });
+    }
+    for p in 0..tier.pick(48, 800) {
+        jobs.push(Job::O { p });
+    }
+    for p in 0..tier.pick(40, 600) {
+        jobs.push(Job::I { p });
+    }
     jobs
 }
 
@@ -640,6 +799,9 @@ pub fn job_plane(job: &Job, seed: u64) -> (Plane, &'static [u16]) {
         Job::Z { p } => (plane_z(seed, *p), &ALL_MODES),
         Job::G { p } => (plane_g(seed, *p), &ALL_MODES),
         Job::T { p } => (plane_t(seed, *p), &ALL_MODES),
+        Job::U { p } => (plane_u(seed, *p), &ALL_MODES),
+        Job::O { p } => (plane_o(seed, *p), &ALL_MODES),
+        Job::I { p } => (plane_i(seed, *p), &ALL_MODES),
     }
 }
 
